@@ -1,5 +1,6 @@
 import Verif.Concrete.Slot
 import Verif.Concrete.Ttl
+import Verif.Concrete.Node
 import Verif.Proto
 /-!
 # Structural tier (C08): replay the implementation's events on the L2 models, compare the private structure
@@ -12,6 +13,8 @@ inductive L2S
   | slot (s : LState)
   | tlru (s : TState)
   | utlru (s : TState)
+  | fifo (s : FState)
+  | cnt (s : CState)
 
 def L2S.init (c : Cfg) : Option L2S :=
   match c.kind with
@@ -20,6 +23,9 @@ def L2S.init (c : Cfg) : Option L2S :=
   | .mru => some (.slot (Slot.init .mru c.cap))
   | .tlru => some (.tlru (Ttl.init .tlru c.cap 0))
   | .utlru => some (.utlru (Ttl.init .utlru c.cap c.ttl))
+  | .fifo => some (.fifo (Fifo.init c.cap))
+  | .lfu => some (.cnt (Cnt.init false c.cap 0 1 2))
+  | .lfuda => some (.cnt (Cnt.init true c.cap c.tick c.num c.den))
   | _ => none
 
 def L2S.step (m : L2S) (now : Time) (op : Op) : L2S × Out :=
@@ -28,18 +34,24 @@ def L2S.step (m : L2S) (now : Time) (op : Op) : L2S × Out :=
   | .slot s => let r := Slot.core.step s now op; (.slot r.1, r.2)
   | .tlru s => let r := (Ttl.coreOf .tlru).step s now op; (.tlru r.1, r.2)
   | .utlru s => let r := (Ttl.coreOf .utlru).step s now op; (.utlru r.1, r.2)
+  | .fifo s => let r := Fifo.core.step s now op; (.fifo r.1, r.2)
+  | .cnt s => let r := Cnt.core.step s now op; (.cnt r.1, r.2)
 
 def L2S.dump : L2S → String
   | .rr s => Rr.dump s
   | .slot s => Slot.dump s
   | .tlru s => Ttl.dump s
   | .utlru s => Ttl.dump s
+  | .fifo s => Fifo.dump s
+  | .cnt s => Cnt.dump s
 
 def L2S.ub : L2S → Bool
   | .rr s => s.ub
   | .slot s => s.ub
   | .tlru s => s.ub
   | .utlru s => s.ub
+  | .fifo s => s.ub
+  | .cnt s => s.ub
 
 /-- events of instance 0 with the structure dump the harness printed after each (if any) -/
 def loop : L2S → Nat → List (Event × Option String) → Option String
